@@ -40,28 +40,31 @@ Fixpoint cells (k : nat) (j : nat) (kp : nat) (older_first : list nat) : K :=
     (match coef kp k with Some m => entry m jp j | None => r1 end) * cells k j (S kp) rest
   end.
 
-Definition extend (k : nat) (pa : list nat * K) : list (list nat * K) :=
-  let '(path, a) := pa in
-  let v := mvec uin (mvec (fst (props k)) (cur k path)) in
-  map (fun j => (j :: path, a * nth j v r0 * diag0 j * cells k j 0 (rev path))) (seq 0 d2).
-
-Fixpoint amplitudes (n : nat) : list (list nat * K) :=
-  match n with
-  | O => [([], r1)]
-  | S k => flat_map (extend k) (amplitudes k)
+(* amplitude of a path (newest index first); its length is the number of time points *)
+Fixpoint amp (path : list nat) : K :=
+  match path with
+  | [] => r1
+  | j :: older =>
+    let k := length older in
+    amp older * nth j (mvec uin (mvec (fst (props k)) (cur k older))) r0 * diag0 j * cells k j 0 (rev older)
   end.
 
-Definition vadd (u v : list K) : list K := map (fun p => fst p + snd p) (combine u v).
-Definition vscale (c : K) (v : list K) : list K := map (fun x => c * x) v.
-Definition vzero : list K := repeat r0 d2.
+Fixpoint all_paths (n : nat) : list (list nat) :=
+  match n with
+  | O => [[]]
+  | S k => flat_map (fun p => map (fun j => j :: p) (seq 0 d2)) (all_paths k)
+  end.
 
-(* state after n steps *)
+(* component s of the state after n >= 1 steps *)
+Definition state_entry (n s : nat) : K :=
+  suml (map (fun p => amp p * nth s (cur n p) r0) (all_paths n)).
+
 Definition state (n : nat) : list K :=
   match n with
   | O => rho0
-  | S k => fold_left (fun acc pa => vadd acc (vscale (snd pa) (cur n (fst pa)))) (amplitudes n) vzero
+  | S _ => map (state_entry n) (seq 0 d2)
   end.
 
 Definition states (n : nat) : list (list K) := map state (seq 0 (S n)).
 End PathSum.
-Arguments states {K}. Arguments state {K}.
+Arguments states {K}. Arguments state {K}. Arguments amp {K}. Arguments all_paths d2. Arguments state_entry {K}. Arguments cur {K}. Arguments cells {K}.
